@@ -61,6 +61,14 @@
 static jmp_buf test_exit_jmp_buf[10];
 static int jmp_buf_index = 0;
 
+#ifdef CPPUTEST_VERIF_HOOKS
+/* read-only accessors for the conformance harnesses: depth and capacity of the setjmp stack */
+extern "C" int CppUTestVerif_JmpBufIndex(void);
+extern "C" int CppUTestVerif_JmpBufCapacity(void);
+int CppUTestVerif_JmpBufIndex(void) { return jmp_buf_index; }
+int CppUTestVerif_JmpBufCapacity(void) { return (int) (sizeof(test_exit_jmp_buf) / sizeof(test_exit_jmp_buf[0])); }
+#endif
+
 // There is a possibility that a compiler provides fork but not waitpid.
 #if !defined(CPPUTEST_HAVE_FORK) || !defined(CPPUTEST_HAVE_WAITPID) || !defined(CPPUTEST_HAVE_KILL)
 
